@@ -256,8 +256,8 @@ class C05(Spec):
         quick = tier == 'quick'
         cs = []
         def add(name, lines): cs.append(Case(name, lines))
-        nh = (8 if quick else 90) * boost
-        nops = 250 if quick else 2000
+        nh = (12 if quick else 150) * boost
+        nops = 300 if quick else 2500
         allk = {'A': 3, 'L': 3, 'T': 3, 'R': 3, 'B': 1}
         for i in range(nh): add(f'mixed{i}', history(rng, nops, allk))
         for i in range(nh): add(f'seq{i}', history(rng, nops, {'A': 3, 'L': 3}, paymax=12))
